@@ -77,6 +77,9 @@ func (s *RegisteredSEI) Payload() []byte {
 // CEA-608 encapsulation in SEI nal unit is defined in ATSC-120 and further
 // in CTA-708 specification (previously CEA-708).
 func ExtractCEA608sei(sd *SEIData) (*CEA608sei, error) {
+	if len(sd.payload) < 8 {
+		return nil, fmt.Errorf("CEA-608 SEI payload too short: %d bytes", len(sd.payload))
+	}
 	field1, field2, err := ParseCEA608(sd.payload[8:])
 	if err != nil {
 		return nil, err
